@@ -148,3 +148,4 @@ Example C18_nonvacuous :
   /\ all_init [("ab", FInit, w_A "4"); ("k", FInit, VLeaf "int" "8")] = true
   /\ rsub_gen w_T 1 (w_AB (w_A "4") "8") (Some [("ab", sel_of_choice (CKey "b"))]) = Ok (w_AB w_B "8").
 Proof. vm_compute. repeat split; reflexivity. Qed.
+Print Assumptions C18_nonvacuous.
